@@ -244,3 +244,41 @@ def write_json(path, obj):
     with open(tmp, "w") as f:
         json.dump(obj, f, indent=1, default=str)
     os.replace(tmp, path)
+
+
+# ---------------------------------------------------------------------------------------------
+# Engine B helpers: extraction of executable Gallina models to OCaml and building the driver.
+def extract_build(tag, extract_v, driver_ml, timeout=900):
+    """tag: e.g. 'C20'.  extract_v: path of a .v file whose last command is
+         Extraction "model.ml" <names>.      (with `Require Import ExtrOcamlBasic.` only)
+    driver_ml: path of the OCaml driver using module Model.  The needed SV.* .vo files must be built already.
+    Returns (binary_path or None, log)."""
+    d = os.path.join(BUILD, "extract", tag)
+    os.makedirs(d, exist_ok=True)
+    h = file_hash([extract_v, driver_ml] + glob.glob(os.path.join(COQ, "Model", "*.v")))
+    out = os.path.join(BUILD, "bin", f"model_{tag}-{h}")
+    if os.path.exists(out):
+        return out, "cached"
+    for f in glob.glob(os.path.join(d, "*")):
+        os.remove(f)
+    shutil.copy(extract_v, os.path.join(d, "Extract.v"))
+    shutil.copy(driver_ml, os.path.join(d, "driver.ml"))
+    r = sh(["timeout", str(timeout), "coqc", "-Q", COQ, "SV", "Extract.v"], cwd=d)
+    if r.returncode != 0 or not os.path.exists(os.path.join(d, "model.ml")):
+        return None, "extraction failed:\n" + r.stdout[-3000:]
+    r2 = sh(["ocamlfind", "ocamlopt", "-O3" if False else "-inline", "100", "-w", "-a", "model.mli", "model.ml", "driver.ml", "-o", out + ".tmp"], cwd=d)
+    if r2.returncode != 0:
+        return None, "ocaml build failed:\n" + r2.stdout[-3000:]
+    os.replace(out + ".tmp", out)
+    return out, r.stdout[-500:] + r2.stdout[-500:]
+
+
+def build_one_cxx(src, tag, extra=()):
+    """build a harness against /repo (cached on repo hash + source hash); returns (path or None, log)"""
+    rh = repo_hash()
+    hh = file_hash(glob.glob(f"{VERIF}/harness/*.hpp") + [src])
+    out = os.path.join(BUILD, "bin", f"{tag}-{rh}-{hh}")
+    fails = build_cxx([(src, out, ["-O1", f"-I{VERIF}/harness"] + list(extra))])
+    if out in fails:
+        return None, fails[out]
+    return out, ""
